@@ -998,6 +998,8 @@ def mon_cs(ops, lines):
             deleted = True
         if ot[0] == "XQ":
             last[ot[1]] = rt[1] if len(rt) > 1 else "?"
+            if rt[1:2] == ["batch"] and rt[2:3] == ["0"]:
+                return "C15-empty-stream-response: stream %s produced a response without messages at op %d" % (ot[1], i)
             if rt[1:4] == ["done", "0", "0"]:
                 return "C15-empty-blocking-pull: handler %s answered with no messages at op %d, before its wait limit" % (ot[1], i)
         if ot[0] == "XD":
